@@ -113,8 +113,9 @@ def prom_read_body(metric, start_ms, end_ms):
 def otlp_metrics_body(name, ts_ns, value):
     # ExportMetricsServiceRequest{resource_metrics=1{scope_metrics=2{metrics=2{name=1, gauge=5{data_points=1{time_unix_nano=3,as_double=4}}}}}}
     dp = _pb_fixed64(3, ts_ns) + _pb_double(4, value)
-    metric = _pb_bytes(1, name) + _pb_bytes(5, _pb_bytes(1, dp))
-    return _pb_bytes(1, _pb_bytes(2, _pb_bytes(2, metric)))
+    metric = _pb_bytes(1, "v") + _pb_bytes(5, _pb_bytes(1, dp))
+    # the measurement of a gauge is the name of the instrumentation scope
+    return _pb_bytes(1, _pb_bytes(2, _pb_bytes(1, _pb_bytes(1, name)) + _pb_bytes(2, metric)))
 
 
 def otlp_logs_body(text, ts_ns):
@@ -611,7 +612,7 @@ class World:
         for db in (D1, D2, S1, S2):
             stmts.append("create database %s" % db)
         for db in (D1, S1):
-            stmts.append("create retention policy %s on %s duration 30d replication 1" % (RPX, db))
+            stmts.append("create retention policy %s on %s duration 36500d replication 1" % (RPX, db))
         for u, (pw, _) in USERS.items():
             stmts.append("create user %s with password '%s'" % (u, pw))
         for s in stmts:
@@ -664,7 +665,7 @@ class World:
     def ensure_scratch(self):
         """re-create what an administrator reference request may have destroyed in the scratch twin."""
         for s in ("create database %s" % S1, "create database %s" % S2,
-                  "create retention policy %s on %s duration 30d replication 1" % (RPX, S1),
+                  "create retention policy %s on %s duration 36500d replication 1" % (RPX, S1),
                   "create user c19sv with password '%s'" % USERS["c19sv"][0],
                   "grant READ on %s to c19ro" % S1, "grant WRITE on %s to c19wo" % S1, "grant ALL on %s to c19other" % S2,
                   "revoke all on %s from c19sv" % S1, "revoke all on %s from c19other" % S1):
